@@ -566,6 +566,7 @@ class World:
         if not isinstance(name, str) or "_" not in name:
             raise it.err(node, f"engine.var called with an unparsable name {name!r}")
         var, role = name.rsplit("_", 1)
+        role = getattr(self, "name_alias", {}).get(role, role)
         if role not in self.roles:
             raise it.err(node, f"engine.var name {name!r} does not end with an element name")
         o = self.roles[role]
